@@ -151,3 +151,229 @@ Theorem C16_neg_zero_skipped_refuted :
     enc_obj sc o = Ok [].
 Proof. exact neg_zero_skipped. Qed.
 Print Assumptions C16_neg_zero_skipped_refuted.
+
+(* ==================================================================================================
+   Float clause, verified against a SPECIFICATION of IEEE 754: Flocq's real-number semantics.
+   [b32_of_bits] / [b64_of_bits] (Flocq IEEE754/Bits.v) decode a bit pattern into a binary32 / binary64
+   float, [B2R] is its real value, [round radix2 (FLT_exp (-149) 24) ZnearestE] is rounding to nearest,
+   ties to even, into the binary32 format (24-bit significands, smallest exponent -149, no upper bound),
+   [bits_of_b32] / [bits_of_b64] are the IEEE 754 interchange encodings.
+   Flocq's theory of the reals rests on the standard library's real-number axioms; the theorems of THIS
+   SECTION ONLY depend on them (every theorem above is closed under the global context).  No axiom is
+   declared in this development; the four names below are those of Coq's standard library (Reals).
+   ================================================================================================== *)
+(* STDLIB-AXIOMS-ALLOWED: ClassicalDedekindReals.sig_not_dec ClassicalDedekindReals.sig_forall_dec FunctionalExtensionality.functional_extensionality_dep Classical_Prop.classic *)
+From Coq Require Import Reals.
+From Flocq Require Import Core IEEE754.Binary IEEE754.Bits.
+From BP Require Import Model.Decode.
+From BP Require Import Model.C01Def Proofs.C16FlocqWiden Proofs.C16FlocqNarrow Proofs.C16FlocqCodec Proofs.C16FlocqInverse.
+Open Scope Z_scope.
+
+(* (1) struct.unpack("<f") is the exact widening: a finite binary32 pattern (exponent field not all ones)
+   goes to a finite binary64 pattern with the same real value and the same sign (also for +-0) *)
+Theorem C16_f2d_exact : forall w,
+  0 <= w < 2 ^ 32 -> Z.land (Z.shiftr w 23) 255 <> 255 ->
+  0 <= f2d w < 2 ^ 64 /\
+  B2R 53 1024 (b64_of_bits (f2d w)) = B2R 24 128 (b32_of_bits w) /\
+  is_finite 53 1024 (b64_of_bits (f2d w)) = true /\ is_finite 24 128 (b32_of_bits w) = true /\
+  Bsign 53 1024 (b64_of_bits (f2d w)) = Bsign 24 128 (b32_of_bits w).
+Proof. exact f2d_exact. Qed.
+Print Assumptions C16_f2d_exact.
+
+Theorem C16_f2d_infinity : forall w,
+  0 <= w < 2 ^ 32 -> Z.land (Z.shiftr w 23) 255 = 255 -> Z.land w (2 ^ 23 - 1) = 0 ->
+  exists s, b32_of_bits w = B754_infinity 24 128 s /\ b64_of_bits (f2d w) = B754_infinity 53 1024 s /\
+            s = negb (Z.shiftr w 31 =? 0).
+Proof. exact f2d_infinity. Qed.
+Print Assumptions C16_f2d_infinity.
+
+(* NaN stays NaN with its sign; the quiet bit is set and the payload moves to the top fraction bits *)
+Theorem C16_f2d_nan : forall w,
+  0 <= w < 2 ^ 32 -> Z.land (Z.shiftr w 23) 255 = 255 -> Z.land w (2 ^ 23 - 1) <> 0 ->
+  is_nan 24 128 (b32_of_bits w) = true /\ is_nan 53 1024 (b64_of_bits (f2d w)) = true /\
+  Bsign 53 1024 (b64_of_bits (f2d w)) = Bsign 24 128 (b32_of_bits w) /\
+  f64_man (f2d w) = 2 ^ 51 + (Z.land w (2 ^ 23 - 1) * 2 ^ 29) mod 2 ^ 51.
+Proof. exact f2d_nan_nan. Qed.
+Print Assumptions C16_f2d_nan.
+
+(* (2) struct.pack("<f") IS IEEE 754 round-to-nearest-even conversion into binary32, with the sign of the
+   argument (also when the result is zero), and raises OverflowError exactly when the rounded value
+   reaches 2^128 (the tie (2^24 - 1/2) * 2^104 = 3.4028235677973366e+38 rounds to even, i.e. overflows:
+   CPython agrees, see C16_ex_overflow_tie) *)
+Theorem C16_d2f_correctly_rounded : forall b,
+  0 <= b < 2 ^ 64 -> Z.land (Z.shiftr b 52) 2047 <> 2047 ->
+  let x := B2R 53 1024 (b64_of_bits b) in
+  let r := round radix2 (FLT_exp (-149) 24) ZnearestE x in
+  ((Rabs r < bpow radix2 128)%R ->
+     exists w, d2f b = Some w /\ 0 <= w < 2 ^ 32 /\
+               is_finite 24 128 (b32_of_bits w) = true /\
+               B2R 24 128 (b32_of_bits w) = r /\
+               Bsign 24 128 (b32_of_bits w) = Bsign 53 1024 (b64_of_bits b) /\
+               Z.shiftr w 31 = Z.shiftr b 63) /\
+  ((bpow radix2 128 <= Rabs r)%R -> d2f b = None).
+Proof. exact d2f_correctly_rounded. Qed.
+Print Assumptions C16_d2f_correctly_rounded.
+
+Theorem C16_d2f_infinity : forall b,
+  0 <= b < 2 ^ 64 -> Z.land (Z.shiftr b 52) 2047 = 2047 -> Z.land b (2 ^ 52 - 1) = 0 ->
+  exists w s, d2f b = Some w /\ 0 <= w < 2 ^ 32 /\
+              b64_of_bits b = B754_infinity 53 1024 s /\ b32_of_bits w = B754_infinity 24 128 s.
+Proof. exact d2f_infinity. Qed.
+Print Assumptions C16_d2f_infinity.
+
+Theorem C16_d2f_nan : forall b,
+  0 <= b < 2 ^ 64 -> Z.land (Z.shiftr b 52) 2047 = 2047 -> Z.land b (2 ^ 52 - 1) <> 0 ->
+  exists w, d2f b = Some w /\ 0 <= w < 2 ^ 32 /\
+            is_nan 53 1024 (b64_of_bits b) = true /\ is_nan 24 128 (b32_of_bits w) = true /\
+            Bsign 24 128 (b32_of_bits w) = Bsign 53 1024 (b64_of_bits b).
+Proof. exact d2f_nan_nan. Qed.
+Print Assumptions C16_d2f_nan.
+
+(* d2f computes the same binary32 float as Flocq's executable IEEE 754 normalisation (binary_normalize,
+   mode_NE) applied to the integer significand and exponent of the double; None = that float is infinite *)
+Theorem C16_d2f_is_binary_normalize : forall b,
+  0 <= b < 2 ^ 64 -> Z.land (Z.shiftr b 52) 2047 <> 2047 ->
+  match d2f b with
+  | Some w => 0 <= w < 2 ^ 32 /\ flocq_narrow b = b32_of_bits w
+  | None => flocq_narrow b = B754_infinity 24 128 (negb (Z.shiftr b 63 =? 0))
+  end.
+Proof. exact d2f_is_binary_normalize. Qed.
+Print Assumptions C16_d2f_is_binary_normalize.
+
+(* (3) the boolean [f32_representable] that the round-trip theorems (C01, C02, C04 ...) take as the range
+   condition of a float32 field means exactly: the value is a binary32 number *)
+Theorem C16_f32_representable_iff : forall b,
+  0 <= b < 2 ^ 64 -> Z.land (Z.shiftr b 52) 2047 <> 2047 ->
+  let x := B2R 53 1024 (b64_of_bits b) in
+  f32_representable b = true <->
+  generic_format radix2 (FLT_exp (-149) 24) x /\ (Rabs x < bpow radix2 128)%R.
+Proof. exact f32_representable_iff. Qed.
+Print Assumptions C16_f32_representable_iff.
+
+(* for such a value pack / unpack is the identity on the value (and on the pattern, zero signs included) *)
+Theorem C16_float_roundtrip_value : forall b,
+  0 <= b < 2 ^ 64 -> Z.land (Z.shiftr b 52) 2047 <> 2047 -> f32_representable b = true ->
+  exists w, d2f b = Some w /\ 0 <= w < 2 ^ 32 /\
+            is_finite 24 128 (b32_of_bits w) = true /\
+            B2R 24 128 (b32_of_bits w) = B2R 53 1024 (b64_of_bits b) /\
+            Bsign 24 128 (b32_of_bits w) = Bsign 53 1024 (b64_of_bits b) /\
+            B2R 53 1024 (b64_of_bits (f2d w)) = B2R 53 1024 (b64_of_bits b) /\
+            f2d w = b.
+Proof. exact representable_roundtrip. Qed.
+Print Assumptions C16_float_roundtrip_value.
+
+(* the four bytes struct.pack writes for a float field are the little-endian IEEE 754 binary32 encoding of
+   the correctly rounded value; reading them back gives a double holding that rounded value; out of range
+   is OverflowError *)
+Theorem C16_float_field_bytes : forall b,
+  0 <= b < 2 ^ 64 -> Z.land (Z.shiftr b 52) 2047 <> 2047 ->
+  let x := B2R 53 1024 (b64_of_bits b) in
+  let r := round radix2 (FLT_exp (-149) 24) ZnearestE x in
+  ((Rabs r < bpow radix2 128)%R ->
+     exists f : binary32,
+       is_finite 24 128 f = true /\ B2R 24 128 f = r /\ Bsign 24 128 f = Bsign 53 1024 (b64_of_bits b) /\
+       pack_value TFloat (PFloat b) = Ok (le_bytes 4 (bits_of_b32 f)) /\
+       exists b', unpack_value TFloat (le_bytes 4 (bits_of_b32 f)) = Ok (PFloat b') /\ 0 <= b' < 2 ^ 64 /\
+                  is_finite 53 1024 (b64_of_bits b') = true /\
+                  B2R 53 1024 (b64_of_bits b') = r /\ Bsign 53 1024 (b64_of_bits b') = Bsign 24 128 f) /\
+  ((bpow radix2 128 <= Rabs r)%R -> pack_value TFloat (PFloat b) = Err EOverflow).
+Proof. exact float_field_bytes. Qed.
+Print Assumptions C16_float_field_bytes.
+
+Theorem C16_float_field_identity : forall b,
+  0 <= b < 2 ^ 64 -> Z.land (Z.shiftr b 52) 2047 <> 2047 -> f32_representable b = true ->
+  exists f : binary32,
+    is_finite 24 128 f = true /\ B2R 24 128 f = B2R 53 1024 (b64_of_bits b) /\
+    Bsign 24 128 f = Bsign 53 1024 (b64_of_bits b) /\
+    pack_value TFloat (PFloat b) = Ok (le_bytes 4 (bits_of_b32 f)) /\
+    unpack_value TFloat (le_bytes 4 (bits_of_b32 f)) = Ok (PFloat b).
+Proof. exact float_field_identity. Qed.
+Print Assumptions C16_float_field_identity.
+
+(* double: the eight bytes are the little-endian IEEE 754 binary64 encoding of the value itself *)
+Theorem C16_double_field_bytes : forall b,
+  0 <= b < 2 ^ 64 ->
+  pack_value TDouble (PFloat b) = Ok (le_bytes 8 (bits_of_b64 (b64_of_bits b))) /\
+  unpack_value TDouble (le_bytes 8 (bits_of_b64 (b64_of_bits b))) = Ok (PFloat b).
+Proof. exact double_field_bytes. Qed.
+Print Assumptions C16_double_field_bytes.
+
+(* the other direction of "mutually inverse": every binary32 number, finite or infinite, survives
+   struct.unpack("<f") followed by struct.pack("<f") bit for bit (so re-encoding a decoded float field
+   reproduces its four bytes) ... *)
+Theorem C16_d2f_f2d_inverse : forall w,
+  0 <= w < 2 ^ 32 ->
+  Z.land (Z.shiftr w 23) 255 <> 255 \/ Z.land w (2 ^ 23 - 1) = 0 ->
+  d2f (f2d w) = Some w.
+Proof. exact d2f_f2d_inverse. Qed.
+Print Assumptions C16_d2f_f2d_inverse.
+
+(* ... but not every NaN: a signalling NaN comes back quiet (0x7f800001 -> 0x7fc00001), as on the hardware;
+   this is why the round-trip theorems state NaN separately (C01 f32 facts) *)
+Theorem C16_d2f_f2d_snan_refuted : exists w, 0 <= w < 2 ^ 32 /\ d2f (f2d w) <> Some w.
+Proof. exact d2f_f2d_snan_refuted. Qed.
+Print Assumptions C16_d2f_f2d_snan_refuted.
+
+(* the value a float32 field holds after encode + decode (C01's norm_f32) is the correctly rounded one,
+   with the sign of the original; it is representable and a second round trip changes nothing *)
+Theorem C16_norm_f32_correctly_rounded : forall b,
+  0 <= b < 2 ^ 64 -> Z.land (Z.shiftr b 52) 2047 <> 2047 ->
+  let r := round radix2 (FLT_exp (-149) 24) ZnearestE (B2R 53 1024 (b64_of_bits b)) in
+  (Rabs r < bpow radix2 128)%R ->
+  0 <= norm_f32 b < 2 ^ 64 /\
+  is_finite 53 1024 (b64_of_bits (norm_f32 b)) = true /\
+  B2R 53 1024 (b64_of_bits (norm_f32 b)) = r /\
+  Bsign 53 1024 (b64_of_bits (norm_f32 b)) = Bsign 53 1024 (b64_of_bits b) /\
+  f32_representable (norm_f32 b) = true /\ norm_f32 (norm_f32 b) = norm_f32 b.
+Proof. exact norm_f32_correctly_rounded. Qed.
+Print Assumptions C16_norm_f32_correctly_rounded.
+
+(* non-vacuity *)
+(* 1.5f and the smallest subnormal 2^-149 widen as expected; both meet the hypotheses of C16_f2d_exact *)
+Example C16_ex_f2d :
+  (0 <= 1069547520 < 2 ^ 32 /\ Z.land (Z.shiftr 1069547520 23) 255 <> 255 /\ f2d 1069547520 = 4609434218613702656) /\
+  (0 <= 1 < 2 ^ 32 /\ Z.land (Z.shiftr 1 23) 255 <> 255 /\ f2d 1 = 3936146074321813504).
+Proof. vm_compute. repeat split; congruence. Qed.
+Example C16_ex_f2d_inf_nan :
+  (Z.land (Z.shiftr 4286578688 23) 255 = 255 /\ Z.land 4286578688 (2 ^ 23 - 1) = 0) /\       (* -inf *)
+  (Z.land (Z.shiftr 2139095041 23) 255 = 255 /\ Z.land 2139095041 (2 ^ 23 - 1) <> 0).        (* signalling NaN, payload 1 *)
+Proof. vm_compute. repeat split; congruence. Qed.
+(* 0.1 is finite, in range (the first hypothesis of C16_d2f_correctly_rounded holds) and is rounded to 0x3dcccccd *)
+Example C16_ex_d2f_inrange :
+  0 <= 4591870180066957722 < 2 ^ 64 /\ Z.land (Z.shiftr 4591870180066957722 52) 2047 <> 2047 /\
+  d2f 4591870180066957722 = Some 1036831949 /\
+  (Rabs (round radix2 (FLT_exp (-149) 24) ZnearestE (B2R 53 1024 (b64_of_bits 4591870180066957722))) < bpow radix2 128)%R.
+Proof.
+  assert (H1 : 0 <= 4591870180066957722 < 2 ^ 64) by (vm_compute; split; congruence).
+  assert (H2 : Z.land (Z.shiftr 4591870180066957722 52) 2047 <> 2047) by (vm_compute; congruence).
+  assert (H3 : d2f 4591870180066957722 = Some 1036831949) by (vm_compute; reflexivity).
+  repeat split; try apply H1; try exact H2; try exact H3. exact (inrange_witness _ _ H1 H2 H3).
+Qed.
+(* the overflow boundary: 0x47efffffefffffff (3.4028235677973362e+38) packs to FLT_MAX 0x7f7fffff; the next
+   double 0x47effffff0000000 = (2^24 - 1/2) * 2^104 (3.4028235677973366e+38) is the tie, rounds to even = 2^128,
+   and raises - the second hypothesis of C16_d2f_correctly_rounded holds for it.  struct.pack agrees. *)
+Example C16_ex_overflow_tie :
+  d2f 5183643170835005439 = Some 2139095039 /\ d2f 5183643170835005440 = None /\
+  (bpow radix2 128 <= Rabs (round radix2 (FLT_exp (-149) 24) ZnearestE (B2R 53 1024 (b64_of_bits 5183643170835005440))))%R.
+Proof.
+  split; [vm_compute; reflexivity|]. split; [vm_compute; reflexivity|].
+  apply overflow_witness; [vm_compute; split; congruence | vm_compute; congruence | vm_compute; reflexivity].
+Qed.
+(* half the smallest subnormal (2^-150) is a tie and rounds to +0; anything above rounds to 2^-149; -1e-320 gives -0.0 *)
+Example C16_ex_underflow :
+  d2f 3931642474694443008 = Some 0 /\ d2f 3931642475144802971 = Some 1 /\ d2f 9223372036854777832 = Some 2147483648.
+Proof. vm_compute. repeat split. Qed.
+Example C16_ex_representable :
+  f32_representable 4609434218613702656 = true /\ f32_representable 4591870180066957722 = false /\
+  Z.land (Z.shiftr 4609434218613702656 52) 2047 <> 2047.
+Proof. vm_compute. repeat split; congruence. Qed.
+Example C16_ex_d2f_inf_nan :
+  (Z.land (Z.shiftr 9218868437227405312 52) 2047 = 2047 /\ Z.land 9218868437227405312 (2 ^ 52 - 1) = 0) /\
+  (Z.land (Z.shiftr 9221120237041090560 52) 2047 = 2047 /\ Z.land 9221120237041090560 (2 ^ 52 - 1) <> 0).
+Proof. vm_compute. repeat split; congruence. Qed.
+(* 0x7f7fffff (FLT_MAX) and 0xff800000 (-inf) meet the two alternatives of C16_d2f_f2d_inverse *)
+Example C16_ex_inverse :
+  (Z.land (Z.shiftr 2139095039 23) 255 <> 255 /\ d2f (f2d 2139095039) = Some 2139095039) /\
+  (Z.land 4286578688 (2 ^ 23 - 1) = 0 /\ d2f (f2d 4286578688) = Some 4286578688) /\
+  norm_f32 4591870180066957722 = 4591870180174331904.                      (* 0.1 -> 0.10000000149011612 *)
+Proof. vm_compute. repeat split; congruence. Qed.
